@@ -45,6 +45,13 @@ func (x *Executor) execCall(fr *Frame, st *State, reach string, call *ssa.CallCo
 		// a call through a function-typed struct field may have a contract keyed "Struct.field"
 		// (written like a method: the first parameter stands for the struct)
 		if ld, ok := call.Value.(*ssa.UnOp); ok {
+			// a call through a package-level function variable: contract keyed by the variable's name
+			if g, ok := ld.X.(*ssa.Global); ok && g.Pkg != nil {
+				if con := x.u.eng.specs.Contracts[g.Pkg.Pkg.Path()][g.Name()]; con != nil {
+					con.Used = true
+					return x.applyContract(fr, st, reach, con, call.Signature(), args, resTy, g.Name())
+				}
+			}
 			if fa, ok := ld.X.(*ssa.FieldAddr); ok {
 				if pt, ok := fa.X.Type().Underlying().(*types.Pointer); ok {
 					if n, ok := pt.Elem().(*types.Named); ok && n.Obj().Pkg() != nil {
@@ -73,27 +80,46 @@ func (x *Executor) atCallObligations(fr *Frame, st *State, reach string, callee 
 		return
 	}
 	_, key := funcKey(callee)
+	var names []string
+	for _, p := range callee.Params {
+		names = append(names, p.Name())
+	}
+	var pkg *types.Package
+	if callee.Pkg != nil {
+		pkg = callee.Pkg.Pkg
+	}
+	x.atCallObligationsKey(fr, st, reach, key, callee.Name(), names, args, pkg)
+}
+
+func (x *Executor) atCallObligationsKey(fr *Frame, st *State, reach string, key, short string, names []string, args []Val, pkg *types.Package) {
+	if fr.con == nil || len(fr.con.AtCall) == 0 {
+		return
+	}
 	cls := fr.con.AtCall[key]
 	if cls == nil {
-		cls = fr.con.AtCall[callee.Name()]
+		cls = fr.con.AtCall[short]
 	}
 	if cls == nil {
 		return
 	}
 	u := x.u
 	vars := map[string]Val{}
-	for i, p := range callee.Params {
-		if i < len(args) {
-			vars[p.Name()] = args[i]
+	for i, n := range names {
+		if i < len(args) && n != "" && n != "_" {
+			vars[n] = args[i]
 		}
 	}
-	var pkg *types.Package
-	if callee.Pkg != nil {
-		pkg = callee.Pkg.Pkg
-	} else if fr.fn.Pkg != nil {
+	if fr.fn.Pkg != nil {
+		// expressions are written in the caller's package
 		pkg = fr.fn.Pkg.Pkg
 	}
-	env := &Env{x: x, u: u, vars: vars, bound: map[string]Val{}, st: st, old: x.entry, pkg: pkg}
+	env := &Env{x: x, u: u, vars: vars, bound: map[string]Val{}, st: st, old: x.entry, pkg: pkg, localsAfter: x.localsLookup(fr, st)}
+	// the enclosing contract's own parameter names are visible too
+	for i, n := range fr.con.Params {
+		if _, taken := vars[n]; !taken && i < len(fr.params) {
+			vars[n] = fr.params[i]
+		}
+	}
 	for _, cl := range cls {
 		t, err := env.Eval(cl.E)
 		o := &Obligation{Name: fmt.Sprintf("%s#atcall:%s:requires%s", fr.prefix, key, clauseLabel(cl)), Kind: "ensures", Clause: "at call of " + key + ": " + cl.Src, For: cl.For}
@@ -147,6 +173,10 @@ func (x *Executor) callStatic(fr *Frame, st *State, reach string, callee *ssa.Fu
 	if callee.Blocks != nil && (inRepo || callee.Parent() != nil || callee.Synthetic != "") && fr.depth < maxInlineDepth && !x.onStack(callee) {
 		// same package (or a closure / wrapper): always; other repo packages: only small leaf helpers
 		samePkg := callee.Parent() != nil || callee.Synthetic != "" || (len(x.stack) > 0 && x.stack[0].Pkg != nil && callee.Pkg == x.stack[0].Pkg)
+		if x.topCon != nil && x.topCon.Opts["noinline"] != "" && callee.Parent() == nil && callee.Synthetic == "" && !smallLeaf(callee) {
+			// the unit treats its un-contracted callees as unknown code
+			samePkg = false
+		}
 		if samePkg || smallLeaf(callee) {
 			return x.inline(fr, st, reach, callee, bind, args, resTy)
 		}
@@ -303,6 +333,18 @@ func (x *Executor) execInvoke(fr *Frame, st *State, reach string, call *ssa.Call
 	u := x.u
 	it := call.Value.Type()
 	mname := call.Method.Name()
+	if fr.con != nil && len(fr.con.AtCall) > 0 {
+		iname := ""
+		if n, ok := it.(*types.Named); ok {
+			iname = n.Obj().Name()
+		}
+		sig := call.Signature()
+		names := []string{"recv"}
+		for i := 0; i < sig.Params().Len(); i++ {
+			names = append(names, sig.Params().At(i).Name())
+		}
+		x.atCallObligationsKey(fr, st, reach, iname+"."+mname, mname, names, append([]Val{recv}, args...), nil)
+	}
 	// contract attached to the interface method
 	if n, ok := it.(*types.Named); ok && n.Obj().Pkg() != nil {
 		if con := u.eng.specs.Contracts[n.Obj().Pkg().Path()][n.Obj().Name()+"."+mname]; con != nil {
@@ -346,8 +388,18 @@ func (x *Executor) applyContract(fr *Frame, st *State, reach string, con *Contra
 	}
 	pre := st.clone()
 	env := &Env{x: x, u: u, vars: vars, bound: map[string]Val{}, st: st, old: pre, pkg: cpkg}
+	assumeReqs := x.topCon != nil && x.topCon.Opts["assumecallreqs"] != ""
 	for _, r := range con.Requires {
 		t, err := env.Eval(r.E)
+		if assumeReqs {
+			// the unit opts out of checking callee preconditions (they rest on data-structure
+			// invariants that are not under contract); they are assumed and listed
+			if err == nil {
+				u.assume(fmt.Sprintf("(=> %s %s)", reach, t.T))
+			}
+			u.trusted["callee preconditions assumed (not checked) inside "+x.topName] = true
+			continue
+		}
 		o := &Obligation{Name: fmt.Sprintf("%s#call:%s:requires%s", fr.prefix, con.Key(), clauseLabel(r)), Kind: "requires@call", Clause: r.Src, For: r.For}
 		if err != nil {
 			o.Fail = err.Error()
